@@ -60,7 +60,8 @@ def _check_shape(seq, sched):
     from psyclone.psyir import nodes as N
     want = {"A": N.Assignment, "Z": N.Assignment, "L": N.Loop, "I": N.IfBlock,
             "R": N.Return, "X": N.CodeBlock, "Y": N.CodeBlock, "G": N.CodeBlock,
-            "T": N.CodeBlock}
+            "T": N.CodeBlock, "W": N.WhileLoop, "B": N.WhileLoop,
+            "K": N.Assignment, "Q": N.IfBlock}
     kids = sched.children
     if len(kids) != len(seq):
         raise HarnessError(f"PSyIR shape differs from the mini-AST: {P.key(seq)} "
@@ -68,8 +69,12 @@ def _check_shape(seq, sched):
     for st, kid in zip(seq, kids):
         if type(kid) is not want[st[0]]:  # pylint: disable=unidiomatic-typecheck
             raise HarnessError(f"PSyIR node {type(kid).__name__} for '{st[0]}'")
-        if st[0] == "L":
+        if st[0] in ("L", "W", "B"):
             _check_shape(st[1], kid.loop_body)
+        elif st[0] == "Q":
+            _check_shape(st[1], kid.if_body)
+            if kid.else_body is not None:
+                raise HarnessError("unexpected else body")
         elif st[0] == "I":
             _check_shape(st[1], kid.if_body)
             if st[2]:
@@ -83,7 +88,7 @@ def schedule_at(routine, path):
     for pos, slot in path:
         node = sched.children[pos]
         from psyclone.psyir import nodes as N
-        if isinstance(node, N.Loop):
+        if isinstance(node, (N.Loop, N.WhileLoop)):
             sched = node.loop_body
         else:
             sched = node.if_body if slot == 1 else node.else_body
@@ -234,6 +239,7 @@ def driver_source(names):
              "  implicit none",
              f"  integer :: c({P.QMAX},{P.NMAX},{P.NMAX})",
              f"  integer :: a({P.AMAX})",
+             f"  integer :: kk({P.KMAX})",
              "  integer :: rid, n, nb, k, ios",
              "  integer :: idx(3, 64)",
              "  do",
@@ -241,6 +247,7 @@ def driver_source(names):
              "    if (ios /= 0) exit",
              "    c = 0",
              "    a = 0",
+             "    kk = 0",
              "    do k = 1, nb",
              "      c(idx(1,k), idx(2,k), idx(3,k)) = 1",
              "    end do",
@@ -248,7 +255,7 @@ def driver_source(names):
              "    select case (rid)"]
     for num, name in enumerate(names):
         lines.append(f"    case ({num})")
-        lines.append(f"      call {name}(n, c, a)")
+        lines.append(f"      call {name}(n, c, a, kk)")
     lines += ["    end select",
               f"    write(*, '(A,{P.AMAX}(1X,I0))') 'RES', a",
               "  end do",
@@ -357,7 +364,8 @@ def e1_run(tree, name, inp, regs):
         cvals[(q - 1) + P.QMAX * ((i - 1) + P.NMAX * (j - 1))] = 1
     args = [I.make_scalar("n", "int", inp["n"]),
             I.make_array("c", "int", [(1, P.QMAX), (1, P.NMAX), (1, P.NMAX)], cvals),
-            I.make_array("a", "int", [(1, P.AMAX)], [0] * P.AMAX)]
+            I.make_array("a", "int", [(1, P.AMAX)], [0] * P.AMAX),
+            I.make_array("k", "int", [(1, P.KMAX)], [0] * P.KMAX)]
     itp = I.Interp(tree, hooks=hooks, horizon=20000)
     itp.run(name, args)
     return hooks.trace, [cell.v for cell in args[2].cells]
